@@ -413,6 +413,10 @@ def bad_requests(L, rng):
             first, second = sorted([a, rest[0]], key=names.index)
             out.append(('relabel partly onto a name in use', 'relabel c0 {%s:u87,%s:%s}' % (first, second, b)))
         out.append(('relabel two simplices onto one name', 'relabel c0 {%s:u88,%s:u88}' % (a, b)))
+    if names:
+        n = rng.choice(names)
+        out.append(('generator asked for a name in use', 'ksimplex c0 old %d %s -' % (rng.randrange(1, 4), n)))
+        out.append(('generator asked for a name in use (a point)', 'ksimplex c0 old 0 %s -' % n))
     out.append(('delete unknown', 'del c0 u86'))
     out.append(('delete unknown basis', 'delb c0 [u86]'))
     if len(pts) >= 2:
@@ -1501,6 +1505,12 @@ def c18(tier, seed):
                 g.do('dict DG {3:3}')
                 g.do('ksimplex c0 old %d %s DG' % (k, idt))
                 g.lines.append('!gen c0 ksimplex %d %s DG' % (k, idt)); g.out.append('ok')
+                used = g.tok_names('c0')
+                if used and rng.random() < 0.3:
+                    # the requested name is taken: refused, and nothing (no stray basis point) is left behind
+                    g.lines.append('!snap c0'); g.out.append('ok')
+                    g.do('ksimplex c0 old %d %s -' % (rng.randrange(0, 4), rng.choice(used)))
+                    g.lines += ['!rejected', '!same-if-rej c0']; g.out += ['ok', 'ok']
             else:
                 g.do('%s c0 old %d' % (kind, k))
                 g.lines.append('!gen c0 %s %d' % (kind, k)); g.out.append('ok')
